@@ -202,6 +202,53 @@ def first_error(log):
   return ' '.join(log.strip().split())[-400:]
 
 
+def cone(vfile, seen=None):
+  """Transitive closure of the DK.* files a .v file requires (paths relative to coq/)."""
+  seen = seen if seen is not None else set()
+  if vfile in seen:
+    return seen
+  seen.add(vfile)
+  try:
+    txt = open(os.path.join(COQ, vfile)).read()
+  except FileNotFoundError:
+    return seen
+  for m in re.finditer(r'From\s+DK(?:\.(\w+))?\s+Require\s+(?:Import|Export)\s+([^.]*)\.', txt):
+    sub, names = m.group(1), m.group(2).split()
+    for nm in names:
+      parts = nm.split('.')
+      cands = []
+      if sub:
+        cands.append('%s/%s.v' % (sub, parts[-1]))
+      else:
+        if len(parts) > 1:
+          cands.append('/'.join(parts) + '.v')
+        cands += ['%s/%s.v' % (d, parts[-1]) for d in ('Base', 'Gen', 'Model', 'Proofs', 'Props')]
+      for c in cands:
+        if os.path.exists(os.path.join(COQ, c)):
+          cone(c, seen)
+          break
+  return seen
+
+
+def lint(files):
+  """Escape-hatch lint (tools/lint_coq.py logic) on the given coq/ files. Returns list of messages."""
+  sys.path.insert(0, os.path.join(VERIF, 'tools'))
+  import importlib.util
+  spec = importlib.util.spec_from_file_location('lint_coq_mod', os.path.join(VERIF, 'tools', 'lint_coq.py'))
+  out = []
+  src = open(os.path.join(VERIF, 'tools', 'lint_coq.py')).read()
+  ns = {}
+  exec(src.split('bad = []')[0], ns)
+  for f in sorted(files):
+    try:
+      code = ns['strip'](open(os.path.join(COQ, f)).read())
+    except FileNotFoundError:
+      continue
+    for m in ns['BAD'].finditer(code):
+      out.append('%s: %s' % (f, m.group(0)))
+  return out
+
+
 def theorems_of(props_file):
   txt = open(os.path.join(COQ, props_file)).read()
   return re.findall(r'^\s*(?:Theorem|Lemma|Corollary|Example)\s+(\w+)', txt, re.M)
@@ -408,6 +455,10 @@ def run_property(mod, tier, seed, replay=None):
         missing = [t for t in thms if t not in axioms]
         if missing:
           broken.append({'kind': 'proof', 'name': 'Print Assumptions', 'detail': 'no output for %s' % missing})
+  lint_msgs = lint(cone(mod.PROPS))
+  obligations.append('lint:no-escape-hatches')
+  if lint_msgs:
+    broken.append({'kind': 'lint', 'name': 'lint:no-escape-hatches', 'detail': '; '.join(lint_msgs[:5])})
   build_s = time.time() - t0
 
   # 3. correspondence
@@ -513,7 +564,7 @@ def run_property(mod, tier, seed, replay=None):
       else:
         lines.append('KNOWN-FINDING-RESOLVED: property=%s %s (stored witness no longer fails)' % (pid, f['what']))
 
-  discharged = len(obligations) - len({b['name'] for b in broken if b['kind'] in ('proof', 'axioms', 'translator')}) - \
+  discharged = len(obligations) - len({b['name'] for b in broken if b['kind'] in ('proof', 'axioms', 'translator', 'lint')}) - \
       (1 if any(b['kind'].startswith('correspondence') or b['kind'] == 'model-build' for b in broken) else 0)
   if any(b['kind'] == 'proof' for b in broken):
     discharged = min(discharged, len(obligations) - len(thms) - (1 if any(b['kind'].startswith('corr') for b in broken) else 0))
